@@ -452,6 +452,14 @@ func c08RunChain(run *ev.Run, cc codecCounts, bin, base, id string, recs []veget
 	}
 	for i, to := range chain {
 		out := filepath.Join(dir, fmt.Sprintf("f%d.%s", i+1, to))
+		if (len(recs)+i)%2 == 0 {
+			// the output path already holds an older, longer result file in the same encoding: the command
+			// must replace it, not write over its beginning
+			stale := append(append([]vegeta.Result(nil), recs...), recs...)
+			if err := codecWriteFile(out, to, stale); err == nil {
+				cc["cli_encode_runs_over_an_existing_longer_file"]++
+			}
+		}
 		res := codecRunVegeta(bin, "encode", "-to", to, "-output", out, files[i])
 		cc["cli_encode_runs"]++
 		if res.Err != nil {
